@@ -14,7 +14,7 @@ from pyxform.question import InputQuestion  # noqa: E402
 from pyxform.section import GroupedSection, RepeatingSection  # noqa: E402
 from pyxform.survey import Survey  # noqa: E402
 
-OUTSIDE = "nesting deeper than the enumerated skeletons; names longer than 2 characters or outside [A-Za-z_][A-Za-z0-9_]; instance() boundary detection inside labels (C lexer)"
+OUTSIDE = "nesting deeper than the enumerated skeletons; symbolic names longer than 2 characters or outside [a-z] (names with digits, case and punctuation are exercised concretely in b/d); instance() boundary detection inside labels (C lexer)"
 ASSUMPTIONS = [
     "S1 identity hash, S2 un-cached is_parent_a_repeat/share_same_repeat_parent, S3 list-backed survey._xpath built by the rule of _setup_xpath_dictionary",
     "element names pairwise distinct (forms with ambiguous names are rejected: C02.c / C03.d)",
@@ -136,10 +136,10 @@ def skeletons(max_total: int):
 
 
 def _name_pre(i: int, ln: int):
-    first = f"(97 <= n{i}a <= 122 or 65 <= n{i}a <= 90 or n{i}a == 95)"
+    # contiguous ranges only: a disjunction in a precondition forks the search at every name
     if ln == 1:
-        return [f"pre: {first}"]
-    return [f"pre: {first} and (97 <= n{i}b <= 122 or 65 <= n{i}b <= 90 or n{i}b == 95 or 48 <= n{i}b <= 57)"]
+        return [f"pre: 97 <= n{i}a <= 122"]
+    return [f"pre: 97 <= n{i}a <= 122 and 97 <= n{i}b <= 122"]
 
 
 def _gen_layout(ck, rk, tk, lens, tiers, timeout, weight, decoy=False):
@@ -158,17 +158,17 @@ def _gen_layout(ck, rk, tk, lens, tiers, timeout, weight, decoy=False):
         for j in range(i + 1, nn):
             if lens[i] == lens[j]:
                 if lens[i] == 1:
-                    pres.append(f"pre: n{i}a != n{j}a and n{i}a != n{j}a + 32 and n{i}a + 32 != n{j}a")
+                    pres.append(f"pre: n{i}a != n{j}a")
                 else:
-                    pres.append(f"pre: not (n{i}a == n{j}a and n{i}b == n{j}b) and not (n{i}a == n{j}a + 32 and n{i}b == n{j}b) and not (n{i}a + 32 == n{j}a and n{i}b == n{j}b)")
+                    pres.append(f"pre: n{i}a * 256 + n{i}b != n{j}a * 256 + n{j}b")
     dexpr = "None"
     if decoy:
         params += ["da: int", "db: int"]
-        pres.append("pre: (97 <= da <= 122 or 65 <= da <= 90 or da == 95) and (97 <= db <= 122 or 65 <= db <= 90 or db == 95 or 48 <= db <= 57)")
+        pres.append("pre: 97 <= da <= 122 and 97 <= db <= 122")
         # the decoy differs from the two question names (the reference must stay unambiguous)
         for i in (nn - 2, nn - 1):
             if lens[i] == 2:
-                pres.append(f"pre: not (n{i}a == da and n{i}b == db)")
+                pres.append(f"pre: n{i}a * 256 + n{i}b != da * 256 + db")
         dexpr = "S(da, db)"
     pres.append("post: _ == True")
     tag = f"{ck or '-'}.{rk or '-'}.{tk or '-'}.L{''.join(map(str, lens))}" + ("+decoy" if decoy else "")
@@ -183,7 +183,7 @@ def _gen_layout(ck, rk, tk, lens, tiers, timeout, weight, decoy=False):
         timeout=timeout,
         kernel=K,
         shims=("S1", "S2", "S3"),
-        symbolic=f"all {nn} element names (lengths {lens}) over [A-Za-z_][A-Za-z0-9_], pairwise distinct" + ("; plus the 2-character name of an unrelated question in a separate group, which may coincide with any section name" if decoy else ""),
+        symbolic=f"all {nn} element names (lengths {lens}) over [a-z], pairwise distinct" + ("; plus the 2-character name of an unrelated question in a separate group, which may coincide with any section name" if decoy else ""),
         bounds=f"layout skeleton: common chain '{ck}', referrer chain '{rk}', target chain '{tk}' (g=group, r=repeat); expression '${{T}} > 1'",
         weight=weight,
     )(fn)
@@ -194,8 +194,11 @@ for _ck, _rk, _tk in skeletons(3):
     _nn = _tot + 2
     if _tot == 0:
         _gen_layout(_ck, _rk, _tk, [2] * _nn, ("quick", "thorough"), 300, 40)
-    elif _tot <= 2:
-        _gen_layout(_ck, _rk, _tk, [2] * _nn, ("quick", "thorough"), 400 + 300 * _tot, 60 + 90 * _tot, decoy=True)
+    elif _tot == 1:
+        _gen_layout(_ck, _rk, _tk, [2] * _nn, ("quick", "thorough"), 500, 120, decoy=True)
+    elif _tot == 2:
+        _gen_layout(_ck, _rk, _tk, [2] * _nn, ("quick", "thorough"), 500, 100)
+        _gen_layout(_ck, _rk, _tk, [2] * _nn, ("thorough",), 1500, 500, decoy=True)
     else:
         _gen_layout(_ck, _rk, _tk, [1] * _nn, ("thorough",), 900, 300)
     if 1 <= _tot <= 2:
@@ -216,7 +219,8 @@ def c03_ambiguous(k: int, ref_first: bool, in_label: bool, l0: int) -> bool:
     """
     lab = S(l0, 65)
     rows = []
-    refrow = {"type": "text", "name": "r", "label": lab + (" ${a}" if in_label else "")}
+    # the cell holding the reference is concrete: the C lexer would realise a symbolic one
+    refrow = {"type": "text", "name": "r", "label": "R ${a}" if in_label else "R"}
     if not in_label:
         refrow["relevant"] = "${a} = 1"
     if ref_first:
@@ -263,12 +267,12 @@ def _kinds(bits: int, n: int) -> str:
 
 def c03_cells(cell: int, nc: int, nr: int, nt: int, cb: int, rb: int, tb: int, x0: int) -> bool:
     """
-    vpre: 0 <= cb <= 3 and 0 <= rb <= 3 and 0 <= tb <= 3
-    vpre: 48 <= x0 <= 57
+    vpre: 0 <= cb < (1 << nc) and 0 <= rb < (1 << nr) and 0 <= tb < (1 << nt)
+    vpre: 33 <= x0 <= 126 and x0 != 36
     vpost: _ == True
     """
     ck, rk, tk = _kinds(cb, nc), _kinds(rb, nr), _kinds(tb, nt)
-    X = S(x0)
+    X = "5"  # cells holding a reference are concrete (C lexer); x0 is a tracer on the target's label
     kind = CELLS_B[cell]
     rows = []
     path = ["data"]
@@ -280,7 +284,7 @@ def c03_cells(cell: int, nc: int, nr: int, nt: int, cb: int, rb: int, tb: int, x
     for i, k in enumerate(tk):
         rows.append({"type": "begin " + ("repeat" if k == "r" else "group"), "name": f"t{i}", "label": "T"})
         tpath.append(f"t{i}")
-    rows.append({"type": "integer", "name": "tq", "label": "TQ"})
+    rows.append({"type": "integer", "name": "tq", "label": S(x0, 84)})
     tpath.append("tq")
     for k in reversed(tk):
         rows.append({"type": "end " + ("repeat" if k == "r" else "group")})
@@ -405,7 +409,7 @@ specialise(
     timeout=400,
     kernel=K + ("pyxform.survey:Survey.insert_output_values", "pyxform.question:MultipleChoiceQuestion.build_xml", "pyxform.section:RepeatingSection.xml_control", "pyxform.survey_element:SurveyElement.get_setvalue_node_for_dynamic_default", "pyxform.survey:Survey._generate_last_saved_instance"),
     shims=("S1", "S2", "S4"),
-    symbolic="group/repeat kind of every section on the common, referrer and target chains (3 symbolic ints) and a symbolic digit inside the expression",
+    symbolic="group/repeat kind of every section on the common, referrer and target chains (3 symbolic ints; the solver branches over every kind assignment) and a symbolic label character on the target row; the cell holding the reference is concrete because the C lexer would realise it",
     bounds="consumer cell kind and chain lengths (common 1, referrer 0-1, target 0-1) fixed per instance; names concrete so the real _setup_xpath_dictionary and lexer run",
     weight=50,
 )
@@ -419,7 +423,7 @@ specialise(
     timeout=900,
     kernel=K,
     shims=("S1", "S2", "S4"),
-    symbolic="group/repeat kind of every section on the common, referrer and target chains and a symbolic digit inside the expression",
+    symbolic="group/repeat kind of every section on the common, referrer and target chains and a symbolic label character on the target row",
     bounds="consumer cell kind and chain lengths (common 0/2, referrer 0-2, target 0-2) fixed per instance",
     weight=200,
 )
